@@ -12,7 +12,7 @@ import vf, rtmock
 LEVEL = "proof"
 READY = True
 TARGETS = ["theories/Props/C18.vo", "theories/Extract/ExWaitOp.vo"]
-THEOREMS = ["C18_invariant", "C18_v1_move_refuted"]
+THEOREMS = ["C18_invariant_one_operation_partial", "C18_v1_move_refuted"]
 CORPUS = os.path.join(vf.ROOT, "corpus", "C18.txt")
 BLOCKED = 4294967295
 
@@ -266,6 +266,9 @@ def run(ctx):
         rr, mm = run_both(exe_r, exe_m, [sc])
         ctx.tie_broken("tie", "model and real WaitableOperation disagree on %d/%d action lists; minimised: %r\n real : %s\n model: %s" % (len(mism), len(cases), sc, strip_markers(rr[0]), mm[0][0]))
     nvalid, viol = 0, None
+    inv_fail = [c for c, m in zip(cases, mod) if m[1] and (m[2].get("inv") != "1" or m[2].get("bad") != "0")]
+    if inv_fail:
+        ctx.tie_broken("model-invariant", "the model's invariant inv_ok fails at the end of %d valid action lists (beyond the proved one-operation universe?); first: %r" % (len(inv_fail), inv_fail[0]))
     for c, r, m in zip(cases, real_m, mod):
         if m[1]:
             nvalid += 1
@@ -281,6 +284,20 @@ def run(ctx):
         why = holds(sc, rr[0]) or why
         ctx.violation("c18:%s:%s" % (why[0], sc.replace(" ", ",")), "C18 rule %r violated by the real runtime on the valid action list %r: %s; real: %s" % (why[0], sc, why[1], strip_markers(rr[0])),
                       {"engine": "waitop", "case": sc, "original": c, "rule": why[0]})
+    explored = None
+    if ctx.tier == "thorough":
+        # exhaustive exploration of every two-operation universe with the EXTRACTED model (evidence, not a proof)
+        kinds = ["st", "sr", "sw", "fr"]
+        lines = ["%d %d | %s %s" % (a, b, k1, k2) for a in (1, 2) for b in (1, 2) for k1 in kinds for k2 in kinds]
+        try:
+            outs = vf.run_filter([exe_m, "explore"], lines, shards=16, timeout=5400)
+            explored = {"configurations": len(lines), "reachable_states": sum(int(o.split()[1]) for o in outs),
+                        "all_satisfy_inv_ok": all(o.startswith("1 ") for o in outs)}
+            if not explored["all_satisfy_inv_ok"]:
+                bad = [l for l, o in zip(lines, outs) if not o.startswith("1 ")]
+                ctx.tie_broken("model-invariant", "inv_ok fails on a reachable state of the two-operation universes %r" % bad[:3])
+        except RuntimeError as e:
+            explored = {"error": str(e)[:300]}
     dist = {"total": len(cases), "corpus": len(corpus), "valid": nvalid, "malformed_or_invalid": len(cases) - nvalid,
             "moves_between_tasks": sum(1 for r in real if re.search(r"tclone:(\d) tunreg:(?!\1)\d", r)),
             "cancel_with_event_already_queued": sum(1 for c, r in zip(cases, real) if re.search(r"h\d=\d+ (?:w\d\S* )*[cd]\d\.\d", c.split("|")[2])),
@@ -298,7 +315,8 @@ def run(ctx):
         "rule": "seeded action lists (1-14 actions + tidy-up drops) over 1-3 operations of kinds {async call, stream read, stream write, future read} and two tasks (C ABI v1/v2 each): poll under a task (with scripted start answer), cancel, drop (with scripted cancel answer), host completion event, task wait+deliver; valid stream + malformed stream; non-trivial = at least one waitable was registered; distinct = distinct lines",
         "samples": [{"scenario": c, "real": r} for c, r in list(zip(cases, real))[len(corpus):len(corpus) + 3]],
         "traces_validated_against_impl": len(cases), "model_mismatches": len(mism),
-        "property_evaluated_on_real_logs": nvalid, "distribution": dist,
+        "property_evaluated_on_real_logs": nvalid, "model_invariant_evaluated_on_valid_lists": nvalid, "distribution": dist,
+        "two_operation_universes_explored": explored if explored is not None else "thorough tier only",
     })
 
 
